@@ -9,12 +9,13 @@ import (
 
 // raceReport is one "WARNING: DATA RACE" block of a GORACE log file.
 type raceReport struct {
-	Text     string
-	Lib      bool   // one of the two access stacks has a frame of the library's logs package
-	Frames   string // innermost library frame of each access stack (sorted pair; "ext:<func>" when a stack has none)
-	Entry    string // outermost library frame of each access stack (sorted pair)
-	Harness  bool   // no library frame and the innermost frames are harness code (main.*)
-	StackKey string // both access stacks, line numbers stripped
+	Text       string
+	Lib        bool   // one of the two access stacks has a frame of the library's logs package
+	Frames     string // innermost library frame of each access stack (sorted pair; "ext:<func>" when a stack has none)
+	Entry      string // outermost library frame of each access stack (sorted pair)
+	EntryTypes string // receiver types of Entry (sorted pair)
+	Harness    bool   // no library frame and the innermost frames are harness code (main.*)
+	StackKey   string // both access stacks, line numbers stripped
 }
 
 type frame struct{ fn, file string }
@@ -115,6 +116,14 @@ func parseRaceLog(text string) []raceReport {
 		sort.Strings(keys)
 		rr.Frames = strings.Join(inner, "|")
 		rr.Entry = strings.Join(outer, "|")
+		var ts []string
+		for _, o := range outer {
+			if i := strings.Index(o, "."); i >= 0 && !strings.HasPrefix(o, "ext:") {
+				o = o[:i]
+			}
+			ts = append(ts, o)
+		}
+		rr.EntryTypes = strings.Join(ts, "|")
 		rr.StackKey = strings.Join(keys, " || ")
 		rr.Harness = !rr.Lib && allMain
 		out = append(out, rr)
